@@ -79,15 +79,15 @@ Qed.
 Definition curT := option (N * bool * list bytes).
 Definition tail_ok (fs : list pframe) (inmsg : bool) (cur : curT) (done : list (N * bool * bytes)) : Prop :=
   forall rest, seq_ok false (fs ++ rest) = seq_ok inmsg rest /\
-               reassemble None (fs ++ rest) = option_map (app done) (reassemble cur rest).
+               events_from None (fs ++ rest) = option_map (app done) (events_from cur rest).
 
 Lemma tail_ok_nil : tail_ok [] false None [].
-Proof. intros rest. split; [reflexivity|]. cbn [app]. destruct (reassemble None rest); reflexivity. Qed.
+Proof. intros rest. split; [reflexivity|]. cbn [app]. destruct (events_from None rest); reflexivity. Qed.
 
 Lemma tail_ok_step fs i c dn f i' c' dn' :
   tail_ok fs i c dn ->
   (forall rest, seq_ok i (f :: rest) = seq_ok i' rest /\
-                option_map (app dn) (reassemble c (f :: rest)) = option_map (app dn') (reassemble c' rest)) ->
+                option_map (app dn) (events_from c (f :: rest)) = option_map (app dn') (events_from c' rest)) ->
   tail_ok (fs ++ [f]) i' c' dn'.
 Proof.
   intros H Hs rest. rewrite <- app_assoc. cbn [app].
@@ -95,17 +95,18 @@ Proof.
   split; [rewrite A; exact C | rewrite B; exact D].
 Qed.
 
-Lemma tail_ok_control fs i c dn f : tail_ok fs i c dn -> op_control (pf_op f) = true ->
-  tail_ok (fs ++ [f]) i c dn.
-Proof.
-  intros H Hc. apply (tail_ok_step _ _ _ _ _ _ _ _ H). intros rest.
-  cbn [seq_ok reassemble]. rewrite Hc. split; reflexivity.
-Qed.
-
 Lemma option_map_app_cons {A} (dn : list A) x o :
   option_map (app dn) (match o with Some l => Some (x :: l) | None => None end)
   = option_map (app (dn ++ [x])) o.
 Proof. destruct o; cbn; [rewrite <- app_assoc; reflexivity|reflexivity]. Qed.
+
+Lemma tail_ok_control fs i c dn f : tail_ok fs i c dn -> op_control (pf_op f) = true ->
+  tail_ok (fs ++ [f]) i c (dn ++ [(pf_op f, false, pf_payload f)]).
+Proof.
+  intros H Hc. apply (tail_ok_step _ _ _ _ _ _ _ _ H). intros rest.
+  cbn [seq_ok events_from]. rewrite Hc. split; [reflexivity|]. apply option_map_app_cons.
+Qed.
+
 
 (* first frame of a data message *)
 Lemma tail_ok_first fs dn f : tail_ok fs false None dn ->
@@ -115,7 +116,7 @@ Lemma tail_ok_first fs dn f : tail_ok fs false None dn ->
           (if pf_fin f then dn ++ [(pf_op f, 4 <=? pf_rsv f, pf_payload f)] else dn).
 Proof.
   intros H Hc H0. apply (tail_ok_step _ _ _ _ _ _ _ _ H). intros rest.
-  cbn [seq_ok reassemble]. rewrite Hc, H0. cbn [negb andb]. split; [reflexivity|].
+  cbn [seq_ok events_from]. rewrite Hc, H0. cbn [negb andb]. split; [reflexivity|].
   destruct (pf_fin f); [apply option_map_app_cons|reflexivity].
 Qed.
 
@@ -127,7 +128,7 @@ Lemma tail_ok_cont fs dn t z acc f : tail_ok fs true (Some (t, z, acc)) dn ->
           (if pf_fin f then dn ++ [(t, z, concat (rev (pf_payload f :: acc)))] else dn).
 Proof.
   intros H H0 Hr. apply (tail_ok_step _ _ _ _ _ _ _ _ H). intros rest.
-  cbn [seq_ok reassemble]. rewrite H0, Hr. cbn [op_control N.leb N.compare N.eqb andb]. split; [reflexivity|].
+  cbn [seq_ok events_from]. rewrite H0, Hr. cbn [op_control N.leb N.compare N.eqb andb]. split; [reflexivity|].
   destruct (pf_fin f); [apply option_map_app_cons|reflexivity].
 Qed.
 
@@ -399,7 +400,7 @@ Definition ping_pong (t : N) : Prop := t = 9 \/ t = 10.
 Lemma control_ok c pmd s ds i cur dn t p :
   CInv c pmd (mw s) ds i cur dn -> ping_pong t -> lenN p <= 125 ->
   let d := mkD true false t (next_key (mw s)) p in
-  exists m', do_control c s t p = (st_mw s m', eOK) /\ CInv c pmd m' (ds ++ [d]) i cur dn /\
+  exists m', do_control c s t p = (st_mw s m', eOK) /\ CInv c pmd m' (ds ++ [d]) i cur (dn ++ [(t, false, p)]) /\
     rbuf m' = rbuf (mw s) /\ pos m' = pos (mw s) /\ ftype m' = ftype (mw s) /\ cflag m' = cflag (mw s).
 Proof.
   intros (Hh & He & Hk & Hw & Hok & Hsh & Htl) Ht Hl d.
@@ -417,8 +418,8 @@ Proof.
     destruct Ht as [-> | ->]; unfold op_ok; [do 4 right; left; reflexivity|do 5 right; reflexivity]. }
   assert (Hdsh : fd_shape pmd d).
   { unfold fd_shape, d. cbn [d_z d_op d_fin d_pl]. split; [discriminate|]. intros _. auto. }
-  assert (Htl' : tail_ok (map (abs_fd (srv c)) (ds ++ [d])) i cur dn).
-  { rewrite map_app. apply tail_ok_control; [exact Htl|]. unfold abs_fd, abs_frame, d. cbn [pf_op d_op].
+  assert (Htl' : tail_ok (map (abs_fd (srv c)) (ds ++ [d])) i cur (dn ++ [(t, false, p)])).
+  { rewrite map_app. apply (tail_ok_control _ _ _ _ (abs_fd (srv c) d) Htl). unfold abs_fd, abs_frame, d. cbn [pf_op d_op].
     destruct Ht as [-> | ->]; reflexivity. }
   assert (Henc : enc_fd (srv c) d = (if srv c then [b0_of true false t; lenN p] ++ p
            else [b0_of true false t; N.lor (lenN p) maskBit] ++ next_key (mw s) ++ mask_fast (next_key (mw s)) 0 p)).
@@ -444,314 +445,3 @@ Proof.
     unfold wire in *. cbn [out set_out set_keys rev]. rewrite concat_app, Hw, enc_all_snoc, Henc. cbn [concat]. rewrite app_nil_r. reflexivity.
 Qed.
 
-(* ---------- scripts: what an application does with the write API ---------- *)
-Inductive wr :=
-| WrWrite (p : bytes)
-| WrString (p : bytes)
-| WrReadFrom (p : bytes) (caps : list N) (ewd : bool)
-| WrCtl (t : N) (p : bytes).                 (* WriteControl between two writes of a message *)
-Inductive item :=
-| IMsg (t : N) (ws : list wr)                (* NextWriter t; ws; Close *)
-| IWriteMessage (t : N) (p : bytes)
-| ICtl (t : N) (p : bytes).
-
-Definition run_wr (c : cfg) (s : cst) (x : wr) : res (cst * N) :=
-  match x with
-  | WrWrite p => do_write c s p []
-  | WrString p => do_write_string c s p []
-  | WrReadFrom p caps ewd => do_read_from c s p caps ewd []
-  | WrCtl t p => Ok (do_control c s t p)
-  end.
-Fixpoint run_wrs (c : cfg) (s : cst) (xs : list wr) : res (cst * N) :=
-  match xs with
-  | [] => Ok (s, eOK)
-  | x :: r => let* y := run_wr c s x in if snd y =? 0 then run_wrs c (fst y) r else Ok y
-  end.
-Definition run_item (c : cfg) (s : cst) (it : item) : res (cst * N) :=
-  match it with
-  | IMsg t ws =>
-      let* a := do_next c s t [] in
-      if snd a =? 0 then
-        let* b := run_wrs c (fst a) ws in
-        if snd b =? 0 then do_close c (fst b) [] else Ok b
-      else Ok a
-  | IWriteMessage t p => do_write_message c s t p [] []
-  | ICtl t p => Ok (do_control c s t p)
-  end.
-Fixpoint run_items (c : cfg) (s : cst) (its : list item) : res (cst * N) :=
-  match its with
-  | [] => Ok (s, eOK)
-  | x :: r => let* y := run_item c s x in if snd y =? 0 then run_items c (fst y) r else Ok y
-  end.
-
-Definition big : N := 4611686018427387904.   (* 2^62 *)
-Definition wr_ok (x : wr) : Prop :=
-  match x with
-  | WrWrite p => lenN p < big
-  | WrString p => True
-  | WrReadFrom p _ _ => True
-  | WrCtl t p => ping_pong t /\ lenN p <= 125
-  end.
-Definition item_ok (it : item) : Prop :=
-  match it with
-  | IMsg t ws => data_type t /\ Forall wr_ok ws
-  | IWriteMessage t p => data_type t /\ lenN p < big
-  | ICtl t p => ping_pong t /\ lenN p <= 125
-  end.
-Definition wr_data (x : wr) : bytes :=
-  match x with WrWrite p => p | WrString p => p | WrReadFrom p _ _ => p | WrCtl _ _ => [] end.
-Definition item_msgs (it : item) : list (N * bool * bytes) :=
-  match it with
-  | IMsg t ws => [(t, false, concat (map wr_data ws))]
-  | IWriteMessage t p => [(t, false, p)]
-  | ICtl _ _ => []
-  end.
-Definition wr_ctls (x : wr) : list (N * bytes) := match x with WrCtl t p => [(t, p)] | _ => [] end.
-Definition item_ctls (it : item) : list (N * bytes) :=
-  match it with
-  | IMsg t ws => concat (map wr_ctls ws)
-  | IWriteMessage _ _ => []
-  | ICtl t p => [(t, p)]
-  end.
-
-Section Uncompressed.
-Variable c : cfg.
-Hypothesis Hblen : 15 <= blen c < big.
-
-(* between two messages *)
-Definition SInv (s : cst) (ds : list fd) (dn : list (N * bool * bytes)) : Prop :=
-  CInv c false (mw s) ds false None dn /\ wopen s = false /\ comp s = false.
-(* inside a message written through a messageWriter handle *)
-Definition WInv (t : N) (s : cst) (g : ghost) (dn : list (N * bool * bytes)) (D : bytes) : Prop :=
-  MInv c false t false (mw s) g dn D /\ wopen s = true /\ comp s = false /\ hkind s = 1 /\ mwclosed s = false.
-
-Lemma CInv_mw_new w ds dn t : CInv c false w ds false None dn -> CInv c false (mw_new w t) ds false None dn.
-Proof. intros H. exact H. Qed.
-
-Lemma do_next_ok s ds dn t : SInv s ds dn -> data_type t ->
-  exists s', do_next c s t [] = Ok (s', eOK) /\ WInv t s' (mkG ds false []) dn [].
-Proof.
-  intros (HC & Ho & Hcp) Ht.
-  unfold do_next, prep_write, implicit_close. rewrite Ho. cbn [negb bind].
-  assert (Hd : is_data t = true) by (destruct Ht as [-> | ->]; reflexivity).
-  assert (Hnc : is_control t = false) by (destruct Ht as [-> | ->]; reflexivity).
-  rewrite Hnc, Hd. cbn [negb andb].
-  destruct HC as (Hh & He & Hrest). rewrite He. cbn [bind]. cbn [N.eqb negb]. rewrite Hcp. cbn [andb].
-  eexists. split; [reflexivity|].
-  unfold WInv, MInv. cbn [mw st_h st_mw wopen comp hkind mwclosed g_ds g_started g_acc].
-  split; [|rewrite ?Hcp; auto].
-  split; [exact (conj Hh (conj He Hrest))|].
-  cbn. split; [reflexivity|]. split; [change maxHdr with 14; lia|]. auto.
-Qed.
-
-
-Lemma WInv_st_mw t s g dn D w' g' D' : WInv t s g dn D -> MInv c false t false w' g' dn D' ->
-  WInv t (st_mw s w') g' dn D'.
-Proof. intros (_ & Ho & Hc & Hk & Hm) H. unfold WInv. cbn [mw st_mw wopen comp hkind mwclosed]. auto. Qed.
-
-Lemma zfalse : false = true -> false = true. Proof. auto. Qed.
-
-Lemma run_wr_ok t s g dn D x : WInv t s g dn D -> data_type t -> wr_ok x ->
-  exists s' g', run_wr c s x = Ok (s', eOK) /\ WInv t s' g' dn (D ++ wr_data x).
-Proof.
-  intros HW Ht Hx. pose proof HW as (HM & Ho & Hc & Hk & Hm).
-  destruct x as [p|p|p caps ewd|tc p]; cbn [run_wr wr_data wr_ok] in *.
-  - unfold do_write. rewrite Hk, Hm. cbn [N.eqb Pos.eqb].
-    destruct (mw_write_ok c false Hblen t false Ht zfalse (mw s) g dn D p HM Hx) as (w' & g' & Hrun & H').
-    rewrite Hrun. cbn [lift_mw bind fst snd]. exists (st_mw s w'), g'. split; [reflexivity|].
-    apply (WInv_st_mw t s g dn D); assumption.
-  - unfold do_write_string. rewrite Hk, Hm. cbn [N.eqb Pos.eqb].
-    destruct (mw_write_string_ok c false Hblen t false Ht zfalse (mw s) g dn D p HM) as (w' & g' & Hrun & H').
-    rewrite Hrun. cbn [lift_mw bind fst snd]. exists (st_mw s w'), g'. split; [reflexivity|].
-    apply (WInv_st_mw t s g dn D); assumption.
-  - unfold do_read_from. rewrite Hk, Hm. cbn [N.eqb Pos.eqb].
-    destruct (mw_read_from_ok c false Hblen t false Ht zfalse (mw s) g dn D p caps ewd HM) as (w' & g' & Hrun & H').
-    rewrite Hrun. cbn [lift_mw bind fst snd]. exists (st_mw s w'), g'. split; [reflexivity|].
-    apply (WInv_st_mw t s g dn D); assumption.
-  - destruct Hx as [Htc Hl]. destruct HM as (HC & Hp & Hpb & Hft & Hcf & HD & Hacc).
-    destruct (control_ok c false s _ _ _ _ tc p HC Htc Hl) as (m' & Hrun & HC' & Hrb & Hps & Hft' & Hcf').
-    rewrite Hrun. eexists (st_mw s m'), (mkG _ (g_started g) (g_acc g)). split; [reflexivity|].
-    rewrite app_nil_r. apply (WInv_st_mw t s g dn D); [exact HW|].
-    unfold MInv. cbn [g_ds g_started g_acc].
-    assert (Hb : buffered m' = buffered (mw s)) by (unfold buffered; rewrite Hrb; reflexivity).
-    rewrite Hb, Hps, Hft', Hcf'.
-    split; [exact HC'|]. split; [exact Hp|]. split; [exact Hpb|]. split; [exact Hft|].
-    split; [exact Hcf|]. split; [exact HD|exact Hacc].
-Qed.
-
-Lemma run_wrs_ok t : forall xs s g dn D, WInv t s g dn D -> data_type t -> Forall wr_ok xs ->
-  exists s' g', run_wrs c s xs = Ok (s', eOK) /\ WInv t s' g' dn (D ++ concat (map wr_data xs)).
-Proof.
-  induction xs as [|x xs IH]; intros s g dn D HW Ht Hxs.
-  - exists s, g. cbn. rewrite app_nil_r. auto.
-  - inversion Hxs as [|? ? Hx Hxs']; subst.
-    destruct (run_wr_ok t s g dn D x HW Ht Hx) as (s1 & g1 & Hrun & H1).
-    destruct (IH s1 g1 dn _ H1 Ht Hxs') as (s' & g' & Hrun' & H').
-    exists s', g'. cbn [run_wrs map concat]. rewrite Hrun. cbn [bind fst snd N.eqb]. rewrite Hrun'.
-    rewrite app_assoc. auto.
-Qed.
-
-Lemma do_close_ok t s g dn D : WInv t s g dn D -> data_type t ->
-  exists s' ds', do_close c s [] = Ok (s', eOK) /\ SInv s' ds' (dn ++ [(t, false, D)]).
-Proof.
-  intros (HM & Ho & Hc & Hk & Hm) Ht.
-  unfold do_close, do_mw_close. rewrite Hk, Hm. cbn [N.eqb Pos.eqb].
-  pose proof (buffered_bound c false Hblen t false _ _ _ _ HM) as Hb.
-  destruct (flush_step c false Hblen t false (mw s) g dn D true [] Ht zfalse HM (fun _ => eq_refl)) as (w' & Hrun & HC).
-  { rewrite app_nil_r. unfold two63. lia. }
-  rewrite Hrun. cbn [bind N.eqb negb]. rewrite !app_nil_r in HC.
-  eexists _, _. split; [reflexivity|]. unfold SInv. cbn [mw st_h st_mw wopen comp].
-  split; [exact HC|auto].
-Qed.
-
-Lemma run_item_ok s ds dn it : SInv s ds dn -> item_ok it ->
-  exists s' ds', run_item c s it = Ok (s', eOK) /\ SInv s' ds' (dn ++ item_msgs it).
-Proof.
-  intros HS Hit. destruct it as [t ws|t p|t p]; cbn [item_ok item_msgs run_item] in *.
-  - destruct Hit as [Ht Hws].
-    destruct (do_next_ok s ds dn t HS Ht) as (s1 & Hrun1 & H1).
-    destruct (run_wrs_ok t ws s1 _ dn [] H1 Ht Hws) as (s2 & g2 & Hrun2 & H2).
-    destruct (do_close_ok t s2 g2 dn _ H2 Ht) as (s3 & ds3 & Hrun3 & H3).
-    exists s3, ds3. rewrite Hrun1. cbn [bind fst snd N.eqb]. rewrite Hrun2. cbn [bind fst snd N.eqb].
-    rewrite Hrun3. auto.
-  - destruct Hit as [Ht Hp]. unfold do_write_message.
-    pose proof HS as (HC & Ho & Hcp). rewrite Hcp. cbn [negb orb].
-    destruct (srv c) eqn:Es; cbn [andb].
-    + (* server fast path: one frame, the part that does not fit the buffer goes out as "extra" *)
-      unfold prep_write, implicit_close. rewrite Ho. cbn [negb bind].
-      assert (Hd : is_data t = true) by (destruct Ht as [-> | ->]; reflexivity).
-      assert (Hnc : is_control t = false) by (destruct Ht as [-> | ->]; reflexivity).
-      rewrite Hnc, Hd. cbn [negb andb].
-      pose proof HC as (Hh & He & Hrest). rewrite He. cbn [N.eqb negb].
-      rewrite splitN_spec.
-      set (n := N.min (blen c - maxHdr) (lenN p)).
-      set (a := firstn (N.to_nat n) p). set (rest := skipn (N.to_nat n) p).
-      assert (Hnle : n <= lenN p) by (unfold n; lia).
-      assert (Ha : lenN a = n).
-      { unfold a. rewrite lenN_spec, firstn_length. rewrite lenN_spec in Hnle. lia. }
-      assert (HM0 : MInv c false t false (mw_new (mw s) t) (mkG ds false []) dn []).
-      { unfold MInv. cbn [g_ds g_started g_acc]. split; [exact HC|]. cbn.
-        split; [reflexivity|]. split; [change maxHdr with 14; unfold big in *; lia|]. auto. }
-      pose proof (append_step c false Hblen t false (mw_new (mw s) t) _ dn [] a HM0) as HM1.
-      rewrite Ha in HM1. specialize (HM1 ltac:(cbn [pos mw_new set_cflag set_ftype set_buf]; unfold n; change maxHdr with 14 in *; unfold big in *; lia)).
-      cbn [app] in HM1.
-      destruct (flush_step c false Hblen t false _ _ dn a true rest Ht zfalse HM1) as (w' & Hrun & HC').
-      { rewrite Es. discriminate. }
-      { rewrite buffered_append. cbn [buffered mw_new set_cflag set_ftype set_buf rbuf rev concat app].
-        unfold a, rest. rewrite firstn_skipn. unfold two63, big in *. lia. }
-      cbn [bind]. cbv beta match. cbn [N.eqb negb]. rewrite Hrun. cbn [lift_mw bind fst snd].
-      eexists _, _. split; [reflexivity|]. unfold SInv. cbn [mw st_mw wopen comp].
-      unfold a, rest in HC'. rewrite firstn_skipn in HC'. split; [exact HC'|auto].
-    + (* client: NextWriter, Write, Close *)
-      destruct (do_next_ok s ds dn t HS Ht) as (s1 & Hrun1 & H1).
-      rewrite Hrun1. cbn [bind N.eqb negb].
-      destruct (run_wr_ok t s1 _ dn [] (WrWrite p) H1 Ht Hp) as (s2 & g2 & Hrun2 & H2).
-      cbn [run_wr] in Hrun2. rewrite Hrun2. cbn [bind N.eqb negb].
-      destruct (do_close_ok t s2 g2 dn _ H2 Ht) as (s3 & ds3 & Hrun3 & H3).
-      exists s3, ds3. split; [exact Hrun3|exact H3].
-  - destruct Hit as [Ht Hl]. destruct HS as (HC & Ho & Hcp).
-    destruct (control_ok c false s _ _ _ _ t p HC Ht Hl) as (m' & Hrun & HC' & _).
-    rewrite Hrun. eexists _, _. split; [reflexivity|]. rewrite app_nil_r.
-    unfold SInv. cbn [mw st_mw wopen comp]. split; [exact HC'|auto].
-Qed.
-
-Lemma run_items_ok : forall its s ds dn, SInv s ds dn -> Forall item_ok its ->
-  exists s' ds', run_items c s its = Ok (s', eOK) /\ SInv s' ds' (dn ++ concat (map item_msgs its)).
-Proof.
-  induction its as [|it its IH]; intros s ds dn HS Hits.
-  - exists s, ds. cbn. rewrite app_nil_r. auto.
-  - inversion Hits as [|? ? Hit Hits']; subst.
-    destruct (run_item_ok s ds dn it HS Hit) as (s1 & ds1 & Hrun & H1).
-    destruct (IH s1 ds1 _ H1 Hits') as (s' & ds' & Hrun' & H').
-    exists s', ds'. cbn [run_items map concat]. rewrite Hrun. cbn [bind fst snd N.eqb]. rewrite Hrun'.
-    rewrite app_assoc. auto.
-Qed.
-End Uncompressed.
-
-Lemma SInv_init c ks : Forall (fun k : bytes => length k = 4%nat) ks -> SInv c (init_cst false ks) [] [].
-Proof.
-  intros Hk. unfold SInv, init_cst, cst0, CInv. cbn [mw wopen comp mws0 hdr werrc keys].
-  split; [|auto]. split; [reflexivity|]. split; [reflexivity|]. split; [exact Hk|].
-  split; [reflexivity|]. split; [constructor|]. split; [constructor|]. exact tail_ok_nil.
-Qed.
-
-Lemma wire_of_spec s : wire_of s = wire (mw s).
-Proof. unfold wire_of, wire. rewrite <- rev_alt. reflexivity. Qed.
-
-Lemma SInv_final c s ds dn : SInv c s ds dn ->
-  exists fs, rfc_parse (wire_of s) = Some fs /\ rfc_valid (srv c) false fs = true /\ messages fs = Some dn.
-Proof.
-  intros ((Hh & He & Hk & Hw & Hok & Hsh & Htl) & _ & _).
-  exists (map (abs_fd (srv c)) ds).
-  rewrite wire_of_spec, Hw.
-  split; [apply rfc_parse_enc; exact Hok|].
-  destruct (Htl []) as [A B]. rewrite app_nil_r in A, B.
-  split.
-  - unfold rfc_valid. rewrite A. cbn [seq_ok negb]. rewrite andb_true_r.
-    apply forallb_forall. intros f Hf. apply in_map_iff in Hf. destruct Hf as (d & <- & Hd).
-    rewrite Forall_forall in Hok, Hsh. apply frame_ok_abs; auto.
-  - unfold messages. rewrite B. cbn. rewrite app_nil_r. reflexivity.
-Qed.
-
-(* every script of well-formed items over an uncompressed connection, both roles, every buffer size *)
-Theorem wire_valid_uncompressed c ks its :
-  15 <= blen c < big -> Forall (fun k : bytes => length k = 4%nat) ks -> Forall item_ok its ->
-  exists s', run_items c (init_cst false ks) its = Ok (s', eOK) /\
-  exists fs, rfc_parse (wire_of s') = Some fs /\ rfc_valid (srv c) false fs = true /\
-             messages fs = Some (concat (map item_msgs its)).
-Proof.
-  intros Hb Hk Hits.
-  destruct (run_items_ok c Hb its _ [] [] (SInv_init c ks Hk) Hits) as (s' & ds' & Hrun & HS).
-  exists s'. split; [exact Hrun|]. cbn [app] in HS. exact (SInv_final c s' ds' _ HS).
-Qed.
-
-(* the scripts are what the harness cases are made of *)
-Example script_is_step_op c s p :
-  step_op c [] s (SL [SZ 1; SB p; SL []]) = run_wr c s (WrWrite p) /\
-  step_op c [] s (SL [SZ 2; SB p; SL []]) = run_wr c s (WrString p) /\
-  step_op c [] s (SL [SZ 4; SL []]) = do_close c s [] /\
-  step_op c [] s (SL [SZ 0; SZ 2]) = do_next c s 2 [].
-Proof. repeat split; reflexivity. Qed.
-
-Example wire_valid_instance :
-  let c := mkC false (16 + 14) in
-  let its := [IMsg 1 [WrWrite [104;105]; WrCtl 9 [1]; WrReadFrom (repeat 7 40) [3; 0] true; WrString []];
-              ICtl 10 []; IWriteMessage 2 (repeat 9 200)] in
-  Forall item_ok its /\
-  match run_items c (init_cst false [[1;2;3;4]]) its with
-  | Ok (s', e) => e = 0 /\ match rfc_parse (wire_of s') with
-                           | Some fs => rfc_valid false false fs = true /\ (4 <= length fs)%nat
-                           | None => False end
-  | _ => False
-  end.
-Proof.
-  cbn zeta. split.
-  - repeat (match goal with |- Forall _ _ => constructor | |- _ /\ _ => split | |- True => exact I
-                        | |- item_ok _ => cbn [item_ok] | |- wr_ok _ => cbn [wr_ok] end);
-      try (left; reflexivity); try (right; reflexivity);
-      try (vm_compute; reflexivity); try (vm_compute; discriminate).
-  - vm_compute. repeat split; auto. lia.
-Qed.
-
-(* the same from any fresh connection state: whatever the 14-byte header area holds (the server's
-   write buffer starts with the bytes of the handshake response), whatever the level *)
-Lemma SInv_fresh c m l : length (hdr m) = 14%nat -> werrc m = 0 ->
-  Forall (fun k : bytes => length k = 4%nat) (keys m) -> out m = [] -> SInv c (cst0 m false l) [] [].
-Proof.
-  intros Hh He Hk Ho. unfold SInv, cst0, CInv. cbn [mw wopen comp].
-  split; [|auto]. split; [exact Hh|]. split; [exact He|]. split; [exact Hk|].
-  split; [unfold wire; rewrite Ho; reflexivity|]. split; [constructor|]. split; [constructor|]. exact tail_ok_nil.
-Qed.
-
-Theorem wire_valid_any_header c h ks l its :
-  15 <= blen c < big -> length h = 14%nat ->
-  Forall (fun k : bytes => length k = 4%nat) ks -> Forall item_ok its ->
-  exists s', run_items c (cst0 (mkM h [] maxHdr 0 false ks [] 0) false l) its = Ok (s', eOK) /\
-  exists fs, rfc_parse (wire_of s') = Some fs /\ rfc_valid (srv c) false fs = true /\
-             messages fs = Some (concat (map item_msgs its)).
-Proof.
-  intros Hb Hh Hk Hits.
-  destruct (run_items_ok c Hb its _ [] [] (SInv_fresh c (mkM h [] maxHdr 0 false ks [] 0) l Hh eq_refl Hk eq_refl) Hits)
-    as (s' & ds' & Hrun & HS).
-  exists s'. split; [exact Hrun|]. cbn [app] in HS. exact (SInv_final c s' ds' _ HS).
-Qed.
